@@ -19,7 +19,7 @@ LEVEL = 'model_checking'
 TECHNIQUE = ('explicit-state bfs of the option protocol against a reference model; stateless model checking of real threads '
              'under a controlled scheduler (sys.settrace schedule points at every pfst function call / line, iterative '
              'preemption bounding); exhaustive op-level interleavings of edit scripts on separate trees')
-LEVEL_TEXT = ('all option-protocol histories up to depth 5 over 5 options are executed on the real option store and compared with '
+LEVEL_TEXT = ('all option-protocol histories up to depth 3-4 over 6 options (deeper over 2) are executed on the real option store and compared with '
               'a stack-of-dicts model and with behavioural probes; all schedules of 2-3 real threads with at most 1 preemption at '
               'every pfst call (quick) / line (thorough) and 2 preemptions inside option/registry functions are executed; all '
               '20 interleavings of two 3-edit scripts')
